@@ -106,6 +106,24 @@ def r2(ctx: Context) -> None:
     defs = [c for c in calls_in(fc.node) if call_name(c) == "apply_defaults"]
     ok = len(binds) == 1 and len(defs) == 1 and binds[0].lineno < defs[0].lineno and "inspect.signature(func)" in g_txt.replace("(" + fc.params[1] + ")", "(func)") and any(isinstance(n, ast.Return) and "arguments" in ast.unparse(n.value) for n in walk_no_nested(fc.node))
     ctx.add("R2", f"{fc.qualname}::bind-then-apply-defaults", ok, fc.loc(), "" if ok else "from_call does not bind the arguments to the signature and apply the defaults before building Arguments")
+    # ... on EVERY path: each return is dominated by apply_defaults and returns the bound mapping (no shortcut that
+    # hands the caller's keywords through - an omitted defaulted parameter would be missing from the identity)
+    from ..flow import cfg_node_of as _cno, func_cfg as _fcfg, parent_map as _pmap
+
+    if defs:
+        g2 = _fcfg(repo, fc)
+        pm2 = _pmap(fc.node)
+        dom2 = g2.dominators(exc_edges=False)
+        dn = {n_.id for n_ in _cno(g2, fc.node, defs[0], pm2)}
+        bound_names = {t.id for st in walk_no_nested(fc.node) if isinstance(st, ast.Assign) and isinstance(st.value, ast.Call) and call_name(st.value) == "bind" for t in st.targets if isinstance(t, ast.Name)}
+        bad_ret = None
+        for r_ in [n for n in walk_no_nested(fc.node) if isinstance(n, ast.Return) and n.value is not None]:
+            rn = _cno(g2, fc.node, r_, pm2)
+            dominated = all(dom2.get(x.id, set()) & dn for x in rn) and bool(rn)
+            from_bound = any(isinstance(x, ast.Attribute) and x.attr == "arguments" and isinstance(x.value, ast.Name) and x.value.id in bound_names for x in ast.walk(r_.value))
+            if not (dominated and from_bound):
+                bad_ret = r_
+        ctx.add("R2", f"{fc.qualname}::every-return-carries-the-defaults", bad_ret is None, fc.loc(bad_ret) if bad_ret is not None else fc.loc(), "" if bad_ret is None else f"`{ast.unparse(bad_ret)[:60]}` leaves from_call without the defaults applied / without the bound mapping: `f(key='k')` and `f('k')` (or a spelling that names the defaulted parameter) get different arguments, a different call id and a different concurrency key")
     ok = all(any(isinstance(a, ast.Starred) for a in b.args) and any(k.arg is None for k in b.keywords) for b in binds)
     ctx.add("R2", f"{fc.qualname}::binds-positional-and-keyword", ok, fc.loc(), "" if ok else "bind does not receive *args and **kwargs")
     # provenance of what reaches Call(...)
